@@ -2785,6 +2785,15 @@ namespace bloch::compiler {
                 throw BlochError(ErrorCategory::Semantic, node.line, node.column,
                                  "Cannot modify final variable '" + var->name + "'");
             }
+            // ... nor is a final array field, named without 'this.'
+            if (!isDeclared(var->name)) {
+                if (auto field = resolveField(var->name, node.line, node.column)) {
+                    if (field->isFinal) {
+                        throw BlochError(ErrorCategory::Semantic, node.line, node.column,
+                                         "Cannot modify final field '" + var->name + "'");
+                    }
+                }
+            }
         }
 
         // Type check: array element assignment must match element type.
